@@ -348,6 +348,50 @@ func mustReachBlockBefore(start, goal *ssa.BasicBlock, stop func(ssa.Instruction
 	return walk(start)
 }
 
+// repoCollectorCall: the call runs the per-repository collector of the family: the repository's gc method itself, or a
+// step of the store (a method of the store type other than the calling one) that calls it and hands back its error.
+func repoCollectorCall(fam *Family, caller *ssa.Function, call ssa.CallInstruction) (step *ssa.Function, ok bool) {
+	isRepoGC := func(f *ssa.Function) bool {
+		return f != nil && f.Signature.Recv() != nil && an.NamedOf(f.Signature.Recv().Type()) == fam.Repo && f.Name() == "gc"
+	}
+	callee := call.Common().StaticCallee()
+	if isRepoGC(callee) {
+		return nil, true
+	}
+	if callee == nil || callee == caller || len(callee.Blocks) == 0 || callee.Signature.Recv() == nil || an.NamedOf(callee.Signature.Recv().Type()) != fam.Store {
+		return nil, false
+	}
+	res := callee.Signature.Results()
+	if res.Len() != 1 || !an.IsErrorType(res.At(0).Type()) {
+		return nil, false
+	}
+	// the step returns the collector's error on the path on which it ran it
+	handsBack := false
+	an.Calls(callee, func(inner ssa.CallInstruction) {
+		if !isRepoGC(inner.Common().StaticCallee()) {
+			return
+		}
+		errv := an.ErrResult(inner)
+		if errv == nil {
+			return
+		}
+		tracked := an.ErrAliases(errv)
+		an.Instrs(callee, func(in ssa.Instruction) {
+			if ret, isRet := in.(*ssa.Return); isRet && len(ret.Results) == 1 {
+				for _, o := range append([]ssa.Value{ret.Results[0]}, an.Origins(ret.Results[0])...) {
+					if tracked[o] || o == errv {
+						handsBack = true
+					}
+				}
+			}
+		})
+	})
+	if !handsBack {
+		return nil, false
+	}
+	return callee, true
+}
+
 func runPassLoop(c *core.Ctx) {
 	r := requireRoles(c)
 	if r == nil {
@@ -360,8 +404,7 @@ func runPassLoop(c *core.Ctx) {
 				continue
 			}
 			an.Calls(fn, func(call ssa.CallInstruction) {
-				callee := call.Common().StaticCallee()
-				if callee == nil || callee.Signature.Recv() == nil || an.NamedOf(callee.Signature.Recv().Type()) != fam.Repo || callee.Name() != "gc" {
+				if _, isCollector := repoCollectorCall(fam, fn, call); !isCollector {
 					return
 				}
 				h := loopHeader(call.Block())
@@ -1382,9 +1425,13 @@ func init() {
 						continue
 					}
 					callsGC := false
+					var steps []*ssa.Function
 					an.Calls(fn, func(call ssa.CallInstruction) {
-						if callee := call.Common().StaticCallee(); callee != nil && callee.Signature.Recv() != nil && an.NamedOf(callee.Signature.Recv().Type()) == fam.Repo && callee.Name() == "gc" && loopHeader(call.Block()) != nil {
+						if step, isCollector := repoCollectorCall(fam, fn, call); isCollector && loopHeader(call.Block()) != nil {
 							callsGC = true
+							if step != nil {
+								steps = append(steps, step)
+							}
 						}
 					})
 					if !callsGC {
@@ -1403,13 +1450,16 @@ func init() {
 							}
 						})
 					}
-					scan(fn)
-					// the comparison may sit in a small method of the repository type the pass calls
-					an.Calls(fn, func(call ssa.CallInstruction) {
-						if sc := call.Common().StaticCallee(); sc != nil && sc.Name() != "gc" && sc.Signature.Recv() != nil && an.NamedOf(an.Deref(sc.Signature.Recv().Type())) == fam.Repo && len(sc.Blocks) > 0 {
-							scan(sc)
-						}
-					})
+					// the comparison may sit in the per-repository step the loop calls, or in a small method of the repository
+					// type the pass (or that step) calls
+					for _, frame := range append([]*ssa.Function{fn}, steps...) {
+						scan(frame)
+						an.Calls(frame, func(call ssa.CallInstruction) {
+							if sc := call.Common().StaticCallee(); sc != nil && sc.Name() != "gc" && sc.Signature.Recv() != nil && an.NamedOf(an.Deref(sc.Signature.Recv().Type())) == fam.Repo && len(sc.Blocks) > 0 {
+								scan(sc)
+							}
+						})
+					}
 				}
 				if stampField == "" {
 					c.Pass("premise:"+fam.Name, token.NoPos, "the %s store's pass does not skip repositories on a modification stamp: nothing to keep fresh", fam.Name)
@@ -1857,114 +1907,137 @@ func init() {
 				if !inserts {
 					continue
 				}
-				for _, b := range fn.Blocks {
-					for _, in := range b.Instrs {
-						var callee *ssa.Function
-						switch x := in.(type) {
-						case *ssa.Go:
-							callee = x.Call.StaticCallee()
-							if callee == nil {
-								if mc, ok := x.Call.Value.(*ssa.MakeClosure); ok {
-									callee, _ = mc.Fn.(*ssa.Function)
-								}
-							}
-						}
-						if callee == nil {
-							continue
-						}
-						// the pruner deletes entries
-						deletes := false
-						an.Calls(callee, func(call ssa.CallInstruction) {
-							if bi, ok := call.Common().Value.(*ssa.Builtin); ok && bi.Name() == "delete" {
-								deletes = true
-							}
-						})
-						if !deletes {
-							continue
-						}
-						name := c.P.FuncName(fn)
-						if fn.Origin() != nil {
-							name = c.P.FuncName(fn.Origin())
-						}
-						key := "trigger:" + kn(name)
-						v := res[key]
-						if v == nil {
-							v = &verdict{pos: in.Pos()}
-							res[key] = v
-						}
-						v.n++
-						// count comparison: operands are limit fields, len(entries) or constants; a materialised
-						// `a && b` (a φ of booleans) is one when every operand is
-						var countCond func(v ssa.Value, depth int) bool
-						countCond = func(v ssa.Value, depth int) bool {
-							base, _ := an.CondBase(v)
-							switch x := base.(type) {
-							case *ssa.Const:
-								return true
-							case *ssa.Phi:
-								if depth > 4 {
-									return false
-								}
-								for _, e := range x.Edges {
-									if !countCond(e, depth+1) {
-										return false
+				// the start of the pruner sits in the insert function itself or in a step of the cache it calls (‘schedule the
+				// pruning’): then the conditions on the way are those of the call in the insert function and those inside the step
+				type frame struct {
+					fn    *ssa.Function
+					outer []*ssa.BasicBlock // blocks of the calls that lead here, with the function each belongs to
+				}
+				frames := []frame{{fn, nil}}
+				an.Calls(fn, func(call ssa.CallInstruction) {
+					if _, isCall := call.(*ssa.Call); !isCall {
+						return
+					}
+					if h := call.Common().StaticCallee(); h != nil && h != fn && len(h.Blocks) > 0 && core.FuncPkgPath(h) == core.FuncPkgPath(fn) && h.Signature.Recv() != nil {
+						frames = append(frames, frame{h, []*ssa.BasicBlock{call.Block()}})
+					}
+				})
+				for _, fr := range frames {
+					for _, b := range fr.fn.Blocks {
+						for _, in := range b.Instrs {
+							var callee *ssa.Function
+							switch x := in.(type) {
+							case *ssa.Go:
+								callee = x.Call.StaticCallee()
+								if callee == nil {
+									if mc, ok := x.Call.Value.(*ssa.MakeClosure); ok {
+										callee, _ = mc.Fn.(*ssa.Function)
 									}
 								}
-								// the operands were evaluated under conditions of the same kind
-								for _, p := range x.Block().Preds {
-									for _, g := range an.GuardingEdges(p) {
-										if g.Synthetic() || an.EdgeDominates(g.From, g.Succ, x.Block()) {
-											continue
-										}
-										if !countCond(g.If().Cond, depth+1) {
+							}
+							if callee == nil {
+								continue
+							}
+							// the pruner deletes entries
+							deletes := false
+							an.Calls(callee, func(call ssa.CallInstruction) {
+								if bi, ok := call.Common().Value.(*ssa.Builtin); ok && bi.Name() == "delete" {
+									deletes = true
+								}
+							})
+							if !deletes {
+								continue
+							}
+							name := c.P.FuncName(fn)
+							if fn.Origin() != nil {
+								name = c.P.FuncName(fn.Origin())
+							}
+							key := "trigger:" + kn(name)
+							v := res[key]
+							if v == nil {
+								v = &verdict{pos: in.Pos()}
+								res[key] = v
+							}
+							v.n++
+							// count comparison: operands are limit fields, len(entries) or constants; a materialised
+							// `a && b` (a φ of booleans) is one when every operand is
+							var countCond func(v ssa.Value, depth int) bool
+							countCond = func(v ssa.Value, depth int) bool {
+								base, _ := an.CondBase(v)
+								switch x := base.(type) {
+								case *ssa.Const:
+									return true
+								case *ssa.Phi:
+									if depth > 4 {
+										return false
+									}
+									for _, e := range x.Edges {
+										if !countCond(e, depth+1) {
 											return false
 										}
 									}
-								}
-								return true
-							case *ssa.BinOp:
-								for _, o := range []ssa.Value{x.X, x.Y} {
-									if _, isC := an.Strip(o).(*ssa.Const); isC {
-										continue
-									}
-									if l := lenOf(o); l != nil {
-										if f, ok := fieldName(l); ok && f == "entries" {
-											continue
+									// the operands were evaluated under conditions of the same kind
+									for _, p := range x.Block().Preds {
+										for _, g := range an.GuardingEdges(p) {
+											if g.Synthetic() || an.EdgeDominates(g.From, g.Succ, x.Block()) {
+												continue
+											}
+											if !countCond(g.If().Cond, depth+1) {
+												return false
+											}
 										}
 									}
-									if f, ok := fieldName(o); ok && (strings.Contains(strings.ToLower(f), "count") || strings.Contains(strings.ToLower(f), "max") || strings.Contains(strings.ToLower(f), "min")) {
+									return true
+								case *ssa.BinOp:
+									for _, o := range []ssa.Value{x.X, x.Y} {
+										if _, isC := an.Strip(o).(*ssa.Const); isC {
+											continue
+										}
+										if l := lenOf(o); l != nil {
+											if f, ok := fieldName(l); ok && f == "entries" {
+												continue
+											}
+										}
+										if f, ok := fieldName(o); ok && (strings.Contains(strings.ToLower(f), "count") || strings.Contains(strings.ToLower(f), "max") || strings.Contains(strings.ToLower(f), "min")) {
+											continue
+										}
+										return false
+									}
+									return true
+								}
+								return false
+							}
+							guards := an.GuardingEdges(b)
+							for _, ob := range fr.outer {
+								guards = append(guards, an.GuardingEdges(ob)...)
+							}
+							for _, g := range guards {
+								cond := g.If().Cond
+								base, _ := an.CondBase(cond)
+								// the receiver nil test at the top of the function
+								if x, _, isNil := an.NilTest(g.If()); isNil {
+									if gf := g.From.Parent(); gf != nil && len(gf.Params) > 0 && x == ssa.Value(gf.Params[0]) {
 										continue
 									}
-									return false
 								}
-								return true
-							}
-							return false
-						}
-						for _, g := range an.GuardingEdges(b) {
-							cond := g.If().Cond
-							base, _ := an.CondBase(cond)
-							// the receiver nil test at the top of the function
-							if x, _, isNil := an.NilTest(g.If()); isNil && x == ssa.Value(fn.Params[0]) {
-								continue
-							}
-							if countCond(cond, 0) {
-								continue
-							}
-							// a busy flag: boolean field of the cache
-							if f, ok := fieldName(base); ok {
-								if bt, isB := base.Type().Underlying().(*types.Basic); isB && bt.Kind() == types.Bool {
-									if why := busyFlagLeak(c, callee, f); why != "" {
-										v.bad = fmt.Sprintf("the start of the count pruner in %s depends on the flag %s, and %s", name, f, why)
-									}
+								if countCond(cond, 0) {
 									continue
 								}
+								// a busy flag: boolean field of the cache
+								if f, ok := fieldName(base); ok {
+									if bt, isB := base.Type().Underlying().(*types.Basic); isB && bt.Kind() == types.Bool {
+										if why := busyFlagLeak(c, callee, f); why != "" {
+											v.bad = fmt.Sprintf("the start of the count pruner in %s depends on the flag %s, and %s", name, f, why)
+										}
+										continue
+									}
+								}
+								// a materialised conjunction whose atoms are judged one by one
+								if _, isPhi := base.(*ssa.Phi); isPhi && !g.Synthetic() && an.Decomposes(g) {
+									continue
+								}
+								v.bad = fmt.Sprintf("the start of the count pruner in %s at %s depends on a condition (%s) other than the count comparison", name, c.P.Pos(in.Pos()), c.P.Pos(cond.Pos()))
 							}
-							// a materialised conjunction whose atoms are judged one by one
-							if _, isPhi := base.(*ssa.Phi); isPhi && !g.Synthetic() && an.Decomposes(g) {
-								continue
-							}
-							v.bad = fmt.Sprintf("the start of the count pruner in %s at %s depends on a condition (%s) other than the count comparison", name, c.P.Pos(in.Pos()), c.P.Pos(cond.Pos()))
 						}
 					}
 				}
